@@ -30,7 +30,7 @@ def run(ctx):
     # how many of the evaluated cases exercise the clauses of the property (measured)
     leaf = mil = inherited = 0
     for (case, out), code in zip(kept, codes):
-        if code & sc.BITS['illformed'] or out.get('outcome') != 0:
+        if case.get('offgrid') or code & sc.BITS['illformed'] or out.get('outcome') != 0:
             continue
         w = out['w']
         mem = [k for k in w if not k['ext']]
@@ -45,8 +45,8 @@ def run(ctx):
     ctx.assumptions += [
         'C02: the start clause is demanded of leaves with neither a user start nor a user end (a fixed end clamps the start, '
         'repair F24 / property C07; see C02_fixed_end_conflict); milestones: max(project start, latest prerequisite end)',
-        'C02: the oracle expands prerequisites with leaves_of (fuel = number of tasks); the theorems are stated with the inductive '
-        'relation [below] (all descendants), which contains that expansion',
+        'C02: ext_last (members numbered before the tasks outside the WBS), a hypothesis of C02_forward_passes_oracle, is asserted '
+        'by this module on every abstract input, not by wfin_b',
     ]
 
 
